@@ -13,13 +13,23 @@
 From Coq Require Import String.
 From RN Require Import Base.Bytes Base.Str Model.StyleDef Model.CaseModel Model.CaseSpec Model.Compound.
 From RN Require Import Gen.GenAcronyms Gen.GenStyles.
-From RN Require Import Proofs.CaseP2 Proofs.CompoundP1 Proofs.CompoundP Proofs.CompoundP2.
+From RN Require Import Model.Matcher Model.Enhanced.
+From RN Require Import Proofs.CaseP2 Proofs.CompoundP1 Proofs.CompoundP Proofs.CompoundP2 Proofs.EnhancedP1 Proofs.EnhancedP2.
 
 (* soundness: whatever is returned, the identifier's tokens hold the term's tokens as a whole-word window *)
 Theorem C07_soundness : forall ident search repl styles,
   find_compound_variants ident search repl styles <> [] ->
   ci_window (tokens gen_acronyms search) (tokens gen_acronyms (snd (extract_prefix ident))).
 Proof. exact compound_soundness. Qed.
+
+(* soundness at the level of the scanner (compound_scanner.rs::find_enhanced_matches, Model/Enhanced.v): every compound
+   match handed to generate_hunks spans exactly one identifier of the file - the slice reported by the extractor - and that
+   identifier's tokens hold the term's tokens as a whole-word window *)
+Theorem C07_scanner_soundness : forall styles c search replace m, compound_kind styles c search replace m ->
+  exists id, (e_start m < e_end m)%nat /\ (e_end m <= length c)%nat /\
+    id = firstn (e_end m - e_start m) (skipn (e_start m) c) /\
+    e_variant m = id /\ ci_window (tokens gen_acronyms search) (tokens gen_acronyms (snd (extract_prefix id))).
+Proof. exact enhanced_compound_has_window. Qed.
 
 (* near miss: no whole-word window, no edit — for every replacement and every style selection *)
 Theorem C07_near_miss : forall ident search repl styles,
@@ -145,6 +155,7 @@ Example C07_locality_instance :
 Proof. vm_compute. reflexivity. Qed.
 
 Print Assumptions C07_soundness.
+Print Assumptions C07_scanner_soundness.
 Print Assumptions C07_near_miss.
 Print Assumptions C07_xfoo_bar.
 Print Assumptions C07_foo_barn.
